@@ -725,11 +725,89 @@ def oracle_at(ctx: Ctx, failure):
                 pass
 
 
+TIE_SNIP = """import warnings; warnings.filterwarnings('ignore')
+import numpy as np, itertools
+from fractions import Fraction as F
+from grid.periodicgrid import PeriodicGrid
+pts = np.array({pts!r}); lens = {lens!r}; c = np.array({c!r}); r = {r!r}; wrap = {wrap!r}
+d = pts.shape[1]; K = len(lens)
+a = np.zeros((K, d)); a[np.arange(K), np.arange(K)] = lens
+g = PeriodicGrid(pts if d > 1 or not {flat!r} else pts[:, 0], np.ones(len(pts)), a if d > 1 or not {flat!r} else np.array(lens), wrap=wrap)
+lg = g.get_localgrid(c if d > 1 or not {flat!r} else float(c[0]), r)
+got = sorted((int(i), tuple(int(round(float(x))) for x in ((np.atleast_1d(p) - np.atleast_1d(g.points[i]))[:K] / np.array(lens)))) for i, p in zip(lg.indices, lg.points))
+P = np.atleast_2d(np.asarray(g.points, dtype=float).reshape(len(pts), -1))
+I = lambda x: int(round(float(x) * 8))      # exact: every number is a multiple of 1/8
+want = []
+for i in range(len(P)):
+    rngs = [range(-(abs(I(P[i, j]) - I(c[j])) + I(r)) // abs(I(lens[j])) - 1, (abs(I(P[i, j]) - I(c[j])) + I(r)) // abs(I(lens[j])) + 2) for j in range(K)]
+    for t in itertools.product(*rngs):
+        q = [I(P[i, j]) + (t[j] * I(lens[j]) if j < K else 0) - I(c[j]) for j in range(d)]
+        if sum(x * x for x in q) <= I(r) * I(r):
+            want.append((i, tuple(t)))
+assert got == sorted(want), f'images exactly on the sphere: got {{got}}, exact enumeration {{sorted(want)}}'
+"""
+
+
+def _oracle_exact_ties(ctx: Ctx, PG, n):
+    """Exact arithmetic: dyadic points, axis-aligned lattice vectors of dyadic length (either sign), dyadic
+    centre and a radius equal to the exact distance of one image (along a lattice axis), so that image lies
+    exactly ON the sphere ("within the radius" includes equality).  Every number is exactly representable and every
+    operation of the code is exact, so this is not a rounding tie; the reference decides with Fractions."""
+    import itertools
+    import warnings
+    from fractions import Fraction as F
+    rng = ctx.rng
+    for _ in range(n):
+        d = rng.choice([1, 1, 2, 3])
+        K = rng.randint(1, d)
+        flat = d == 1 and rng.random() < 0.5
+        lens = [rng.choice([1.0, 0.5, 2.0, 0.25, 4.0]) * rng.choice([1, 1, -1]) for _ in range(K)]   # powers of two: exact reciprocals
+        npts = rng.randint(1, 5)
+        pts = np.array([[rng.randrange(-16, 17) / 8.0 for _ in range(d)] for _ in range(npts)])
+        wrap = rng.random() < 0.4
+        a = np.zeros((K, d))
+        a[np.arange(K), np.arange(K)] = lens
+        with warnings.catch_warnings():
+            warnings.simplefilter("ignore")
+            g = PG(pts[:, 0] if flat else pts, np.ones(npts), np.array(lens) if flat else a, wrap=wrap)
+        P = np.asarray(g.points, dtype=float).reshape(npts, -1)
+        i0, ax = rng.randrange(npts), rng.randrange(K)
+        t0 = [rng.randint(-1, 1) for _ in range(K)]
+        r = rng.choice([0.125, 0.25, 0.5, 1.0, 1.5, 2.0]) if K < 3 else rng.choice([0.125, 0.25, 0.5])
+        c = P[i0].copy()
+        c[:K] += np.array(t0) * np.array(lens)
+        c[ax] += rng.choice([-1, 1]) * r          # the image (i0, t0) is now at distance exactly r, along a lattice axis
+        with warnings.catch_warnings():
+            warnings.simplefilter("ignore")
+            lg = g.get_localgrid(float(c[0]) if flat else c, r)
+        lp = np.asarray(lg.points, dtype=float).reshape(len(lg.indices), -1)
+        got = sorted((int(i), tuple(int(round(float(x))) for x in ((q - P[i])[:K] / np.array(lens)))) for i, q in zip(lg.indices, lp))
+        # exact integer arithmetic in units of 1/8 (every number here is a multiple of 1/8)
+        I = lambda x: int(round(float(x) * 8))
+        assert all(abs(I(x) / 8 - float(x)) == 0 for x in list(P.ravel()) + list(c) + lens + [r])
+        want = []
+        for i in range(npts):
+            rngs = [range(-(abs(I(P[i, j]) - I(c[j])) + I(r)) // abs(I(lens[j])) - 1, (abs(I(P[i, j]) - I(c[j])) + I(r)) // abs(I(lens[j])) + 2) for j in range(K)]
+            for t in itertools.product(*rngs):
+                q = [I(P[i, j]) + (t[j] * I(lens[j]) if j < K else 0) - I(c[j]) for j in range(d)]
+                if sum(x * x for x in q) <= I(r) * I(r):
+                    want.append((i, tuple(t)))
+        ctx.count(["exact-tie", d, K, flat, lens, r], nontrivial=True, tag=f"oracle:exact-tie:d{d}:K{K}")
+        if got != sorted(want):
+            miss = sorted(set(want) - set(got))[:4]
+            extra = sorted(set(got) - set(want))[:4]
+            ctx.fail("oracle", "periodicgrid.get_localgrid:images:on-sphere",
+                     f"exactly representable case (dim {d}, {K} lattice vector(s) {lens}, wrap={wrap}): images at distance exactly r = {r} — missing {miss}, spurious {extra}",
+                     witness={"points": pts.tolist(), "lengths": lens, "center": c.tolist(), "radius": r, "wrap": wrap, "flat": flat},
+                     snippet=TIE_SNIP.format(pts=pts.tolist(), lens=lens, c=c.tolist(), r=r, wrap=wrap, flat=flat))
+
+
 def oracle(ctx: Ctx, budget: str):
     import warnings
     M = _mods()
     PG, Grid = M["periodicgrid"].PeriodicGrid, M["basegrid"].Grid
     rng = ctx.rng
+    _oracle_exact_ties(ctx, PG, (60 if budget == "small" else 1500) * (4 if ctx.thorough else 1))
     n = (800 if budget == "small" else 8000) * (4 if ctx.thorough else 1)
     for ci in range(n):
         args = periodic_args(rng)
